@@ -60,7 +60,7 @@ pub broadcast axiom fn ax_eq(a: f64, b: f64)
 pub broadcast group f64_axioms {
     ax_class_excl, ax_add_req, ax_sub_req, ax_mul_req, ax_div_req, ax_obeys,
     ax_add_val, ax_sub_val, ax_mul_val, ax_div_val, ax_cmp, ax_eq,
-    ax_abs, ax_max, ax_sqrt, ax_neg, ax_sign_pos,
+    ax_abs, ax_max, ax_sqrt, ax_neg, ax_sign_pos, ax_boxed_f64_len,
 }
 
 // T4: literals
@@ -117,6 +117,11 @@ pub broadcast axiom fn ax_sign_pos(x: f64)
 
 pub assume_specification<T, A: std::alloc::Allocator> [std::vec::Vec::<T, A>::into_boxed_slice] (v: std::vec::Vec<T, A>) -> (r: std::boxed::Box<[T], A>)
     ensures r@ == v@;
+
+// T5: an allocated slice of 8-byte elements has at most isize::MAX / 8 elements (Layout size <= isize::MAX);
+// `vec![x; n]` with a larger n panics with "capacity overflow" before any indicator exists.
+pub broadcast axiom fn ax_boxed_f64_len(b: Box<[f64]>)
+    ensures #[trigger] b@.len() <= isize::MAX / 8;
 
 // ---------------------------------------------------------------------------------------------
 // ring-buffer theory (pure spec, proved)
